@@ -548,7 +548,7 @@ func mutate(r *Rng, src string) string {
 	return strings.Join(toks, "")
 }
 
-var bigMulRe = regexp.MustCompile(`[0-9]{6,}|[0-9][eE][+]?[0-9]`)
+var bigMulRe = regexp.MustCompile(`[0-9]{5,}|[0-9][eE][+]?[0-9]`)
 var hugeNumRe = regexp.MustCompile(`[0-9]{40,}`)
 
 // dangerous: programs that may allocate gigabytes within the time limit
